@@ -1,0 +1,14 @@
+//go:build verif
+
+package buffer
+
+// PoisonByte is written over the whole capacity of a buffer when it is
+// returned to its pool, so that a read of a freed buffer becomes visible.
+const PoisonByte = 0xDB
+
+func verifPoison(b *Buffer) {
+	bs := b.bs[:cap(b.bs)]
+	for i := range bs {
+		bs[i] = PoisonByte
+	}
+}
